@@ -14,7 +14,9 @@ F = [
  dict(id='KF-REC2', family='rec_two_scopes', properties=RUNP,
       kinds=HANG + ['over_execution', 'delivered_before_complete', 'error_instead_of_value', 'wrong_error', 'wrong_value',
                     'missing_execution', 'unexpected_args', 'unexpected_default_call', 'missing_default_call',
-                    'complete_count_ne_attempts', 'value_instead_of_error', 'schedule_dependent_outcome'],
+                    'complete_count_ne_attempts', 'value_instead_of_error', 'schedule_dependent_outcome',
+                    # a run that goes on after the exhaustion it should have failed with also runs the nodes behind it (thorough C09)
+                    'never_node_ran'],
       mechanism='a recurrent subgraph that is inside two sub-pipeline scopes which are both active in the run, one of them a one-of candidate '
                 '(e.g. consumed directly and through a candidate): whether a failure inside a re-iteration is contained (stored as a result) '
                 'or raised is decided by the scope that happens to drive the subgraph; when the candidate drives it, the failure is stored, '
